@@ -10,8 +10,8 @@ pub struct Comp {
     pub name: &'static str,
     /// generate the body of case `k`
     pub gen: fn(&mut rng::Rng, bool) -> String,
-    /// execute a case body on the real implementation
-    pub exec: fn(&str) -> String,
+    /// execute a case body on the real implementation; every op output is passed to `emit`
+    pub exec: fn(&str, &mut dyn FnMut(&str)),
     /// per-case isolation timeout in ms (0 = run in-process, no fork)
     pub isolate_ms: u64,
 }
@@ -25,11 +25,13 @@ fn find(name: &str) -> &'static Comp {
 
 fn run_case(c: &Comp, body: &str) -> String {
     if c.isolate_ms == 0 {
-        (c.exec)(body)
+        let mut outs: Vec<String> = Vec::new();
+        (c.exec)(body, &mut |o: &str| outs.push(o.to_string()));
+        outs.join(" | ")
     } else {
         let b = body.to_string();
         let e = c.exec;
-        iso::render(iso::isolated(c.isolate_ms, move || e(&b)))
+        iso::isolated(c.isolate_ms, move |emit| e(&b, emit))
     }
 }
 
